@@ -12,6 +12,7 @@
 //	seq            second start and retry while steps run / during the exit handler / after the end
 //	probe-bind     first start delayed before its unlink (after probe, history open, first status); second start inside
 //	bind-first     first start delayed before its bind; second start binds first
+//	save           first start delayed inside its locked section; the DAG definition is saved (real UpdateSpec); second start after the save
 //	late-unlink    first start with every unlinkat delayed; second start after its shutdown unlink; third after its exit
 //	sweep-<ms>     second start <ms> after the first, no injection
 package main
@@ -34,6 +35,7 @@ import (
 	"time"
 
 	"github.com/ErdemOzgen/blackdagger/internal/dag"
+	"github.com/ErdemOzgen/blackdagger/internal/persistence/local"
 	"github.com/ErdemOzgen/blackdagger/verifh/vh"
 )
 
@@ -93,6 +95,7 @@ type Scenario struct {
 	Procs     []*Proc    `json:"procs"`
 	Probes    []Probe    `json:"probes"`
 	HistFiles []string   `json:"hist_files"`
+	Saves     []float64  `json:"saves"` // instants at which the driver saved the DAG definition through the real DAGStore.UpdateSpec
 	Sock      string     `json:"sock"`
 	SockLeft  bool       `json:"sock_left"`
 	DelayUs   int        `json:"delay_us"`
@@ -531,6 +534,9 @@ func (s *Scenario) finish(delayUs int) {
 	if s.Probes == nil {
 		s.Probes = []Probe{}
 	}
+	if s.Saves == nil {
+		s.Saves = []float64{}
+	}
 }
 
 // ---------------------------------------------------------------------------------------------
@@ -569,6 +575,34 @@ func scnProbeBind(s *Scenario, delayUs int) {
 	s.probe("second-running")
 	if waitUntil(15*time.Second, func() bool { return s.markerHas("a", p0.Tag) || p0.isDone() }) {
 		s.probe("both-running")
+		s.launchWait("start", "", "")
+		s.probe("after-third")
+	}
+}
+
+// the first start is held between its probe and its unlink (inside its locked section); the definition is saved through the
+// real DAGStore.UpdateSpec (temp file + rename: a new inode at the path); the second start is issued after the save
+func scnSave(s *Scenario, delayUs int) {
+	p0 := s.launch("start", fmt.Sprintf("unlinkat:delay_enter=%d:when=1", delayUs), "")
+	if !waitUntil(15*time.Second, func() bool { return len(s.histFiles()) >= 1 }) {
+		s.Infra = "first run never recorded its start"
+		return
+	}
+	time.Sleep(30 * time.Millisecond)
+	spec, err := os.ReadFile(s.dagFile())
+	if err == nil {
+		err = local.NewDAGStore(&local.NewDAGStoreArgs{Dir: filepath.Join(s.dir, "dags")}).UpdateSpec("lock", spec)
+	}
+	if err != nil {
+		s.Infra = "UpdateSpec: " + err.Error()
+		return
+	}
+	s.Saves = append(s.Saves, now())
+	p1 := s.launch("start", "", "")
+	waitUntil(15*time.Second, func() bool { return s.markerHas("a", p1.Tag) || p1.isDone() })
+	s.probe("second-started")
+	if waitUntil(15*time.Second, func() bool { return s.markerHas("a", p0.Tag) || p0.isDone() }) {
+		s.probe("first-running")
 		s.launchWait("start", "", "")
 		s.probe("after-third")
 	}
@@ -640,6 +674,7 @@ func main() {
 		add("seq", 0, scnSeq)
 		add("probe-bind", D, func(s *Scenario) { scnProbeBind(s, D) })
 		add("bind-first", D, func(s *Scenario) { scnBindFirst(s, D) })
+		add("save", D, func(s *Scenario) { scnSave(s, D) })
 		add("late-unlink", 600000, func(s *Scenario) { scnLateUnlink(s, 600000) })
 	}
 	offs := []int{0, 3, 40, 600, 1700, 2080}
